@@ -1,5 +1,147 @@
-//! C05 (b): statistics of runs through the real sample loop (filled in with the loop driver).
+//! C05 (b): statistics of runs through the real sample loop.
+//!
+//! The samples a run must have recorded are derived from the *trace* (logged
+//! readings, in-window allocator operations, generated inputs); the statistics
+//! the loop reports are then judged by the same reference as the injected
+//! cases, so the sample -> index -> allocation/counter association is checked
+//! end to end.
 
-use crate::groups::Groups;
+use proptest::prelude::*;
 
-pub fn groups(_g: &mut Groups) {}
+use super::{
+    c01, c02,
+    c05::{judge_painted, judge_stats, Case as StatsCase, CounterSpec},
+};
+use crate::{
+    engine::{classify, Verdict},
+    groups::Groups,
+    loopdrv::*,
+    loopmodel::*,
+    vensure,
+};
+
+pub fn check_case(c: &LoopCase) -> Verdict {
+    let t_eff = c.effective_threads();
+    if c.test_mode {
+        return Verdict::Inconclusive("test mode".into());
+    }
+    let o = run_loop(c);
+    if let Err(e) = &o.result {
+        return Verdict::fail("unexpected-panic", format!("loop panicked: {e}\ncase: {c:?}"));
+    }
+    let tr = Traces::of(&o);
+    let rounds = tr.rounds();
+    let Some((first, size)) = reported_rounds(c, &tr, t_eff) else { return Verdict::fail("missing-readings", format!("a round lacks readings\ncase: {c:?}")) };
+    let s = size as u32;
+    vensure!(
+        o.view.durations.len() == (rounds - first.min(rounds)) * t_eff,
+        "samples-vs-rounds",
+        "{} samples for rounds {first}..{rounds} x {t_eff} threads\ncase: {c:?}",
+        o.view.durations.len()
+    );
+    let tuned = c.sample_size.is_none();
+    let mut durations = Vec::new();
+    let mut allocs = Vec::new();
+    let mut per_input: [Vec<u64>; 4] = Default::default();
+    for k in first..rounds {
+        for t in 0..t_eff {
+            let Some(r) = tr.round(t, k) else { return Verdict::fail("uneven-rounds", format!("thread {t} lacks round {k}\ncase: {c:?}")) };
+            let raw = conv(r.end, r.start, c.frequency);
+            // While tuning, a zero reading is stored as one timer precision.
+            let raw = if tuned && raw == 0 { c.precision_ps.max(1) as u128 } else { raw };
+            let i = durations.len();
+            vensure!(o.view.durations[i] == raw, "recorded-duration", "sample #{i} (round {k}, thread {t}) recorded {} ps, its readings give {raw} ps\ncase: {c:?}", o.view.durations[i]);
+            durations.push(raw);
+            let model = WindowTally::of(&r.window);
+            if model.equal_realloc > 0 {
+                return Verdict::Inconclusive("equal-size realloc (classification free)".into());
+            }
+            allocs.push(if model.is_empty() { None } else { Some(model.as_c05()) });
+            for kind in 0..4 {
+                per_input[kind].push(per_iter_count(kind as u8, r, s));
+            }
+        }
+    }
+    let counters: [CounterSpec; 4] = std::array::from_fn(|kind| {
+        if c.entry.has_inputs() && c.input_counters[kind] {
+            CounterSpec::PerInput(per_input[kind].clone())
+        } else if let Some(v) = c.const_counters[kind] {
+            CounterSpec::Const(v)
+        } else {
+            CounterSpec::None
+        }
+    });
+    let sc = StatsCase { sample_size: if durations.is_empty() { 0 } else { s }, durations, allocs, counters, binary: false };
+    let stats = match &o.stats {
+        Some(Ok(st)) => st,
+        Some(Err(e)) => return Verdict::fail(if sc.durations.is_empty() { "stats-panic:samples=0" } else { "stats-panic" }, format!("compute_stats panicked: {e}\ncase: {c:?}")),
+        None => return Verdict::fail("stats-missing", format!("no statistics\ncase: {c:?}")),
+    };
+    if let Err((sig, msg)) = judge_stats(&sc, stats) {
+        return Verdict::fail(sig, format!("{msg}\nsamples derived from the trace: {sc:?}\ncase: {c:?}"));
+    }
+    if let Some(text) = &o.painted {
+        if let Err((sig, msg)) = judge_painted(text, stats, &sc) {
+            return Verdict::fail(sig, format!("{msg}\ncase: {c:?}"));
+        }
+    }
+    let n = sc.durations.len();
+    let mut sorted = sc.durations.clone();
+    sorted.sort_unstable();
+    let tie = sorted.windows(2).any(|w| w[0] == w[1]);
+    let sparse = sc.allocs.iter().any(|a| a.is_some()) && sc.allocs.iter().any(|a| a.is_none());
+    let distinct_allocs = {
+        let mut v: Vec<_> = sc.allocs.iter().flatten().collect();
+        v.dedup();
+        v.len() > 1
+    };
+    classify(format!("n={}{}{}{}", if n == 0 { "0" } else if n == 1 { "1" } else if n % 2 == 0 { "even" } else { "odd" }, if tie { "/tie" } else { "" }, if sparse { "/sparse" } else { "" }, if t_eff > 1 { "/T>1" } else { "" }));
+    Verdict::pass(n >= 2 && (tie || n % 2 == 0 || sparse || distinct_allocs))
+}
+
+fn case() -> impl Strategy<Value = LoopCase> {
+    (
+        (c01::entry(), c01::shape(), c01::shape(), 1u8..=3, prop_oneof![1 => Just(0u32), 8 => 1u32..=9], prop_oneof![1 => Just(Some(0u32)), 8 => (1u32..=5).prop_map(Some), 2 => Just(None)]),
+        (
+            prop_oneof![
+                2 => proptest::collection::vec(0u64..=50, 1..=7).prop_map(CostModel::Table),
+                2 => (0u64..=5, 0u64..=7).prop_map(|(base, step)| CostModel::Growing { base, step }),
+                1 => (0u64..=9).prop_map(CostModel::Const),
+            ],
+            0u64..=9,
+            c02::alloc_steps(3),
+            prop_oneof![2 => Just(0u32), 1 => 1u32..=7],
+            any::<bool>(),
+            c02::alloc_steps(2),
+        ),
+        (proptest::array::uniform4(prop::bool::weighted(0.4)), proptest::array::uniform4(proptest::option::weighted(0.3, prop_oneof![0u64..=100, any::<u64>()])), prop_oneof![Just(1_000_000_000u64), Just(1_000_000_000_000u64), Just(3_000_000_000u64)]),
+    )
+        .prop_map(|((entry, input, output, threads, n, s), (call, skew, benched, first, vary, gen), (input_counters, const_counters, frequency))| {
+            let mut c = LoopCase::basic(entry, input, output);
+            c.threads = threads;
+            c.sample_count = Some(n);
+            c.sample_size = s;
+            c.frequency = frequency;
+            // Tuned sizes must freeze: make every call cost at least one precision.
+            if s.is_none() {
+                c.precision_ps = (1_000_000_000_000u128 / frequency as u128).max(1) as u64;
+            }
+            c.costs.call = if s.is_none() { match call { CostModel::Table(t) => CostModel::Table(t.into_iter().map(|x| x.max(1)).collect()), CostModel::Growing { base, step } => CostModel::Growing { base: base.max(1), step }, CostModel::Const(x) => CostModel::Const(x.max(1)), other => other } } else { call };
+            c.costs.per_thread_skew = skew;
+            c.input_counters = input_counters;
+            // `input_counter` followed by `counter` of the same kind on one
+            // Bencher is not a documented combination (see DESIGN.md, section
+            // 10): constant counters only for kinds without an input counter.
+            c.const_counters = std::array::from_fn(|k| if input_counters[k] && entry.has_inputs() { None } else { const_counters[k] });
+            c.allocs.benched = benched;
+            c.allocs.benched_first_calls = first;
+            c.allocs.benched_vary = vary;
+            c.allocs.gen = gen;
+            c
+        })
+}
+
+pub fn groups(g: &mut Groups) {
+    PAINT.store(true, std::sync::atomic::Ordering::SeqCst);
+    g.prop("loop", 12_000, 300_000, case(), check_case);
+}
